@@ -370,6 +370,33 @@ def reply (m : Mem) (s : Nat) : R (Mem × Option Nat) := do
     let (m, id) ← importTree m t
     pure (m, some id)
 
+/-- second half of `xmpp_stanza_reply_error`: the `<error/>` child with its condition (and text) is built
+    and put below the reply `r` -/
+def replyErrorBody (m : Mem) (r : Nat) (et cond : Bytes) (text : Option Bytes) : R (Mem × Option Nat) := do
+  let (m, error) := stanzaNew m
+  let (m, _) ← setName m error sError
+  let (m, _) ← setAttribute m error kType et
+  let (m, _) ← addChildEx m r error true
+  let (m, _) ← release m.fuel m error
+  let (m, item) := stanzaNew m
+  let (m, _) ← setName m item cond
+  let (m, _) ← setAttribute m item xmlnsKey nsStanzas
+  let (m, _) ← addChildEx m error item true
+  let (m, _) ← release m.fuel m item
+  match text with
+  | none => pure (m, some r)
+  | some tx =>
+    let (m, item) := stanzaNew m
+    let (m, _) ← setName m item sText
+    let (m, _) ← setAttribute m item xmlnsKey nsStanzas
+    let (m, _) ← addChildEx m error item true
+    let (m, _) ← release m.fuel m item
+    let (m, ts) := stanzaNew m
+    let (m, _) ← setText m ts tx
+    let (m, _) ← addChildEx m item ts true
+    let (m, _) ← release m.fuel m ts
+    pure (m, some r)
+
 /-- `xmpp_stanza_reply_error`: the C function's own sequence of public calls -/
 def replyError (m : Mem) (s : Nat) (errorType condition text : Option Bytes) : R (Mem × Option Nat) :=
   match errorType, condition with
@@ -380,32 +407,11 @@ def replyError (m : Mem) (s : Nat) (errorType condition text : Option Bytes) : R
     | some r =>
       let (m, _) ← setAttribute m r kType sError                 -- xmpp_stanza_set_type(reply, "error")
       let to ← getAttribute m s kTo                              -- xmpp_stanza_get_to(stanza)
-      let (m, _) ← (match to with
-        | some to => setAttribute m r kFrom to
-        | none => pure (m, (0 : Int)))
-      let (m, error) := stanzaNew m
-      let (m, _) ← setName m error sError
-      let (m, _) ← setAttribute m error kType et
-      let (m, _) ← addChildEx m r error true
-      let (m, _) ← release m.fuel m error
-      let (m, item) := stanzaNew m
-      let (m, _) ← setName m item cond
-      let (m, _) ← setAttribute m item xmlnsKey nsStanzas
-      let (m, _) ← addChildEx m error item true
-      let (m, _) ← release m.fuel m item
-      match text with
-      | none => pure (m, some r)
-      | some tx =>
-        let (m, item) := stanzaNew m
-        let (m, _) ← setName m item sText
-        let (m, _) ← setAttribute m item xmlnsKey nsStanzas
-        let (m, _) ← addChildEx m error item true
-        let (m, _) ← release m.fuel m item
-        let (m, ts) := stanzaNew m
-        let (m, _) ← setText m ts tx
-        let (m, _) ← addChildEx m item ts true
-        let (m, _) ← release m.fuel m ts
-        pure (m, some r)
+      match to with
+      | some to => do
+        let (m, _) ← setAttribute m r kFrom to                   -- xmpp_stanza_set_from(reply, to)
+        replyErrorBody m r et cond text
+      | none => replyErrorBody m r et cond text
   | _, _ => pure (m, none)
 
 /-- `xmpp_error_new(ctx, type, text)`: children are handed over with `xmpp_stanza_add_child_ex(…, 0)` -/
